@@ -39,35 +39,42 @@ Proof.
 Qed.
 
 (* typing does not depend on the scope beyond membership *)
-Lemma type_of_mono tys sc sc' e t :
+Lemma type_of_mono tys sc sc' :
   (forall i t, In i sc -> nth_error tys i = Some t -> In i sc') ->
-  type_of tys sc e = Some t -> type_of tys sc' e = Some t.
+  forall e t, type_of tys sc e = Some t -> type_of tys sc' e = Some t.
 Proof.
-  intros Hs. revert t. induction e; simpl; intros t0 H; try assumption.
+  intros Hs. fix IH 1. intros e. destruct e; simpl; intros t0 H; try assumption.
   - destruct (existsb (Nat.eqb i) sc) eqn:E; [|discriminate].
     apply existsb_eqb_In in E. apply (Hs _ _ E) in H as E'. apply existsb_eqb_In in E'. rewrite E'. assumption.
   - destruct (existsb (Nat.eqb i) sc) eqn:E; [|discriminate].
     apply existsb_eqb_In in E. apply (Hs _ _ E) in H as E'. apply existsb_eqb_In in E'. rewrite E'. assumption.
-  - eauto.
-  - eauto.
-  - destruct (type_of tys sc e) as [[[]|]|]; try discriminate; rewrite (IHe _ eq_refl); assumption.
-  - destruct (type_of tys sc e1) as [ta|]; [|discriminate].
-    destruct (type_of tys sc e2) as [tb|]; [|discriminate].
-    rewrite (IHe1 _ eq_refl), (IHe2 _ eq_refl). assumption.
-  - destruct (type_of tys sc e1) as [ta|]; [|discriminate].
-    destruct (type_of tys sc e2) as [tb|]; [|discriminate].
-    rewrite (IHe1 _ eq_refl), (IHe2 _ eq_refl). assumption.
-  - destruct (type_of tys sc e1) as [ta|]; [|discriminate].
-    destruct (type_of tys sc e2) as [tb|]; [|discriminate].
-    rewrite (IHe1 _ eq_refl), (IHe2 _ eq_refl). assumption.
-  - destruct (type_of tys sc e1) as [[[]|]|]; try discriminate;
-      destruct (type_of tys sc e2) as [[[]|]|]; try discriminate;
-      rewrite (IHe1 _ eq_refl), (IHe2 _ eq_refl); assumption.
-  - destruct (type_of tys sc e1) as [[[]|]|]; try discriminate;
-      destruct (type_of tys sc e2) as [[[]|]|]; try discriminate;
-      rewrite (IHe1 _ eq_refl), (IHe2 _ eq_refl); assumption.
-  - destruct (type_of tys sc e) as [ta|]; [|discriminate].
-    rewrite (IHe _ eq_refl). assumption.
+  - (* call: only the arguments depend on the scope *)
+    destruct (type_of tys sc e2) as [ta|] eqn:Ta.
+    2:{ rewrite andb_false_r in H. discriminate. }
+    rewrite (IH e2 _ Ta). destruct b as [eb|]; [|exact H].
+    destruct (type_of tys sc eb) as [tb|] eqn:Tb.
+    2:{ rewrite andb_false_r in H. discriminate. }
+    rewrite (IH eb _ Tb). exact H.
+  - apply IH. assumption.
+  - apply IH. assumption.
+  - destruct (type_of tys sc e) as [[[]|]|] eqn:Te; try discriminate; rewrite (IH e _ Te); assumption.
+  - destruct (type_of tys sc e1) as [ta|] eqn:T1; [|discriminate].
+    destruct (type_of tys sc e2) as [tb|] eqn:T2; [|discriminate].
+    rewrite (IH e1 _ T1), (IH e2 _ T2). assumption.
+  - destruct (type_of tys sc e1) as [ta|] eqn:T1; [|discriminate].
+    destruct (type_of tys sc e2) as [tb|] eqn:T2; [|discriminate].
+    rewrite (IH e1 _ T1), (IH e2 _ T2). assumption.
+  - destruct (type_of tys sc e1) as [ta|] eqn:T1; [|discriminate].
+    destruct (type_of tys sc e2) as [tb|] eqn:T2; [|discriminate].
+    rewrite (IH e1 _ T1), (IH e2 _ T2). assumption.
+  - destruct (type_of tys sc e1) as [[[]|]|] eqn:T1; try discriminate;
+      destruct (type_of tys sc e2) as [[[]|]|] eqn:T2; try discriminate;
+      rewrite (IH e1 _ T1), (IH e2 _ T2); assumption.
+  - destruct (type_of tys sc e1) as [[[]|]|] eqn:T1; try discriminate;
+      destruct (type_of tys sc e2) as [[[]|]|] eqn:T2; try discriminate;
+      rewrite (IH e1 _ T1), (IH e2 _ T2); assumption.
+  - destruct (type_of tys sc e) as [ta|] eqn:Te; [|discriminate].
+    rewrite (IH e _ Te). assumption.
 Qed.
 
 Lemma type_of_var_lt tys sc i t : type_of tys sc (EVar i) = Some t -> In i sc /\ nth_error tys i = Some t.
@@ -77,15 +84,18 @@ Proof.
 Qed.
 
 (* ---------------------------------------------------------------- reparse *)
-Lemma reparse_id e : uop_free e = true -> reparse e = e.
+Lemma reparse_id : forall e, uop_free e = true -> reparse e = e.
 Proof.
-  induction e; simpl; intros H; try reflexivity;
+  fix IH 1. intros e. destruct e; simpl; intros H; try reflexivity;
     repeat match goal with
            | H : _ && _ = true |- _ => apply andb_true_iff in H; destruct H
            end;
-    try (rewrite ?IHe, ?IHe1, ?IHe2 by assumption; reflexivity).
-  - rewrite IHe by assumption. destruct e; simpl in *; try reflexivity; discriminate.
-  - rewrite IHe by assumption. destruct e; simpl in *; try reflexivity; discriminate.
+    try (rewrite ?(IH e), ?(IH e1), ?(IH e2) by assumption; reflexivity).
+  - (* call *)
+    rewrite (IH e1), (IH e2) by assumption. destruct b as [eb|]; [|reflexivity].
+    rewrite (IH eb) by assumption. reflexivity.
+  - rewrite (IH e) by assumption. destruct e; simpl in *; try reflexivity; discriminate.
+  - rewrite (IH e) by assumption. destruct e; simpl in *; try reflexivity; discriminate.
 Qed.
 
 (* ---------------------------------------------------------------- execution steps *)
@@ -715,6 +725,9 @@ Section Expr.
       rewrite exec_l_cons, (exec_lget fo _ _ _ _ L), exec_l_nil. reflexivity.
     - (* stateful variable: outside the proved fragment *)
       discriminate.
+    - (* global constant, call: outside the proved fragment *)
+      discriminate.
+    - discriminate.
     - (* parentheses *)
       destruct (IHe hint t0 Ht Hp Hh Hm) as (c & Ec & Sc).
       exists c. split; [assumption|]. exact Sc.
